@@ -376,8 +376,10 @@ def shrink_list(items, still_fails, max_runs=60):
 # ----------------------------------------------------------------------------- the standard flow
 
 def standard_check(res, vh_cmd, n_cases, prop_files, model_files, theorem_note, trusted, assumptions,
-                   extra_vh_args=(), shrink_key="steps", level="proof", post=None, corpus=True, vh_bin="vh", build_flags=(), vh_env=None, extra_coverage=None):
+                   extra_vh_args=(), shrink_key="steps", level="proof", post=None, corpus=True, vh_bin="vh", build_flags=(), vh_env=None, extra_coverage=None, extra_runs=()):
     """Proof obligations + correspondence + oracle for one property.
+
+    extra_runs : further generated runs of the same harness binary, [(sub-command, number of cases)], processed like the main one
 
     prop_files : theories/... files whose theorems state the property (must build, must be axiom-free)
     model_files: theories/... files the cases evaluation needs (hand-written model, no proofs)
@@ -425,19 +427,27 @@ def standard_check(res, vh_cmd, n_cases, prop_files, model_files, theorem_note, 
                     rc, o, _ = run_vh([vh_cmd, "-replay", os.path.join(cdir, f), "-out", d, "-tier", res.tier] + list(extra_vh_args), vh_bin=vh_bin)
                     if rc != 0:
                         raise RuntimeError("vh failed on corpus %s:\n%s" % (f, o[-3000:]))
-                    dirs.append((d, "corpus/" + f))
+                    dirs.append((d, "corpus/" + f, vh_cmd))
         d = os.path.join(work, "gen")
         rc, o, wall = run_vh([vh_cmd, "-seed", res.seed, "-n", n_cases, "-out", d, "-tier", res.tier] + list(extra_vh_args), vh_bin=vh_bin,
                               extra_env=(vh_env(work) if callable(vh_env) else vh_env))
         if rc != 0:
             raise RuntimeError("vh %s failed:\n%s" % (vh_cmd, o[-3000:]))
-        dirs.append((d, "generated"))
+        dirs.append((d, "generated", vh_cmd))
+        for k, (xcmd, xn) in enumerate(extra_runs):
+            d = os.path.join(work, "gen_x%d" % k)
+            rc, o, _ = run_vh([xcmd, "-seed", res.seed, "-n", xn, "-out", d, "-tier", res.tier] + list(extra_vh_args), vh_bin=vh_bin,
+                              extra_env=(vh_env(work) if callable(vh_env) else vh_env))
+            if rc != 0:
+                raise RuntimeError("vh %s failed:\n%s" % (xcmd, o[-3000:]))
+            dirs.append((d, "generated/" + xcmd, xcmd))
 
         total_cases = total_nontrivial = 0
         samples = []
         n_mism = 0
         n_oracle = 0
-        for d, origin in dirs:
+        rules = []
+        for d, origin, run_cmd in dirs:
             rep = json.load(open(os.path.join(d, "impl.json")))
             cases = json.load(open(os.path.join(d, "cases.json")))
             total_cases += rep["cases"]
@@ -446,6 +456,8 @@ def standard_check(res, vh_cmd, n_cases, prop_files, model_files, theorem_note, 
                 stats[k] = stats.get(k, 0) + v
             samples += (rep.get("samples") or [])[:2]
             rule = rep.get("rule", "")
+            if rule and rule not in rules:
+                rules.append(rule)
             viol = (rep.get("violations") or []) + (rep.get("hangs") or [])
             mism = []
             if not model_broken:
@@ -465,19 +477,19 @@ def standard_check(res, vh_cmd, n_cases, prop_files, model_files, theorem_note, 
                     continue
                 reported.add(v["case"])
                 case = cases[v["case"]]
-                small = shrink_case(vh_cmd, case, work, shrink_key, want_oracle=True, extra=extra_vh_args, vh_bin=vh_bin)
+                small = shrink_case(run_cmd, case, work, shrink_key, want_oracle=True, extra=extra_vh_args, vh_bin=vh_bin)
                 res.violation("oracle", v["problem"], {"origin": origin, "problem": v["problem"], "case": small, "original_case": case,
-                              "replay_cmd": "bin/vh %s -replay <file with [case]> -out <dir>" % vh_cmd,
+                              "replay_cmd": "bin/%s %s -replay <file with [case]> -out <dir>" % (vh_bin, run_cmd), "vh_cmd": run_cmd,
                               "theorem": theorem_note})
             for i in mism:
                 if i in oracle_cases or len(reported) >= 6:
                     continue
                 reported.add(i)
                 case = cases[i]
-                small = shrink_case(vh_cmd, case, work, shrink_key, want_oracle=False, extra=extra_vh_args, vh_bin=vh_bin)
+                small = shrink_case(run_cmd, case, work, shrink_key, want_oracle=False, extra=extra_vh_args, vh_bin=vh_bin)
                 # is the shrunk case also an oracle violation? (then it is a failing input)
-                res.violation("correspondence", "model and implementation disagree (%s)" % vh_cmd,
-                              {"origin": origin, "case": small, "original_case": case,
+                res.violation("correspondence", "model and implementation disagree (%s)" % run_cmd,
+                              {"origin": origin, "case": small, "original_case": case, "vh_cmd": run_cmd,
                                "broken": "correspondence between coq/theories model (%s) and /repo" % ", ".join(model_files)},
                               found_input=False)
         if model_broken:
@@ -496,7 +508,7 @@ def standard_check(res, vh_cmd, n_cases, prop_files, model_files, theorem_note, 
                "checker_cmd": "coq_makefile -f _CoqProject -o Makefile.coq && make -f Makefile.coq -k -j16 (coqc 8.16.1, full .vo build); coqc theories/Properties/%s.v for Print Assumptions" % prop,
                "trusted_base": trusted,
                "theorems": pa["printed"], "proof_files_broken": broken,
-               "evaluations": total_cases, "distinct_nontrivial": total_nontrivial, "rule": rule,
+               "evaluations": total_cases, "distinct_nontrivial": total_nontrivial, "rule": " || ".join(rules) if rules else rule,
                "traces_validated_against_impl": total_cases, "correspondence_mismatches": n_mism, "oracle_violations": n_oracle,
                "input_distribution": stats, "samples": samples[:4], "coq_build_s": round(build["wall_s"], 1),
                "known_findings_hit": res.known}
